@@ -5,10 +5,12 @@ CONSTANTS
   AsIs_D11 = FALSE
   Pattern = "suffix"
   AllowNonTLS = FALSE
-  Classes = {"in_wss", "out_wss", "in_ws", "empty", "unparsable"}
+  Classes = {"in_wss", "out_wss"}
   MaxNoOffer = 1
   MaxTimeouts = 3
   EnvAtQuiet = FALSE
+  GenNoFaults = FALSE
+  GenHold = 0
 SPECIFICATION FairSpec
 INVARIANTS TypeOK SlotRange CapacityHonoured ReleasedAtMostOnce ReleasedAtEnd NoEarlyRelease RetNeverBlocks CounterMatches ReportedOK RelayPolicy FullCapacityAgain
 PROPERTY PollsAgain
